@@ -114,7 +114,7 @@ def ref_keep(rows, statements):
 
 def gen_catalog(r, n):
     pool_t = sorted(int(x) for x in r.integers(-2000000000000, 4000000000000, 6))
-    pool_t = [t - t % 1000 + int(r.choice([0, 1, 500, 999])) for t in pool_t]
+    pool_t = [t - t % 1000 + int(r.choice([0, 1, 500, 999, 250, 100, 900, 10])) for t in pool_t]
     if r.uniform() < 0.5:
         # an instant at an arbitrary millisecond phase whose value is NOT reproduced by (t / 1000) * 1000 in double precision (about 1 in 80 is
         # not): an integer-millisecond threshold must be compared as that integer
@@ -160,6 +160,10 @@ def gen_statements(r, pool_t, pools, k):
             t -= t % 1000 if r.uniform() < 0.3 else 0
             d = c15.ms_to_dt(t)
             s = d.strftime("%Y-%m-%d %H:%M:%S") + (".%06d" % d.microsecond if (d.microsecond or r.uniform() < 0.5) else "")
+            # the fraction of a second is a decimal fraction: '.5' is 500 ms and '.25' is 250 ms, whatever the number of digits written
+            sp = r.uniform()
+            if "." in s and sp < 0.5:
+                s = s[:-3] if sp < 0.2 else (s.rstrip("0") if not s.endswith(".000000") else s[:-5])
             out.append("datetime %s %s" % (op, s))
         elif a == "origin_time":
             t = int(r.choice(pool_t)) + int(r.choice([0, 0, 1, -1]))
